@@ -48,7 +48,7 @@ package actor
 // lock was acquired: every critical section is one atomic transition of the
 // abstract map.
 
-//@ private H$actor.Registry, H$actor.process, H$actor.Context, H$actor.Inbox, H$actor.Engine, H$actor.PID, E$S$actor.Envelope, E$Ref
+//@ private H$actor.Registry, H$actor.process, H$actor.Context, H$actor.Inbox, H$actor.Engine, H$actor.PID, H$actor.Response, E$S$actor.Envelope, E$Ref
 
 //@ guarded Registry(r) by mu footprint r.lookup, mapof(r.lookup)
 //@ lockinv[C10.inv] r.lookup != nil
@@ -56,6 +56,7 @@ package actor
 //@ func (*Registry).add(proc)
 //@   props C10 C04
 //@   requires r != nil && r.engine != nil && !isnil(proc)
+//@   modifies heap except private, mapof(r.lookup), log, loglen
 //@   atunlock[C10.add.dup-untouched] old(has(r.lookup, pidof(proc).ID)) ==> forallS("Str", id, has(r.lookup, id) == old(has(r.lookup, id)) && r.lookup[id] == old(r.lookup[id]))
 //@   atunlock[C10.add.insert-dom] !old(has(r.lookup, pidof(proc).ID)) ==> forallS("Str", id, has(r.lookup, id) == (old(has(r.lookup, id)) || id == pidof(proc).ID))
 //@   atunlock[C10.add.insert-val] !old(has(r.lookup, pidof(proc).ID)) ==> r.lookup[pidof(proc).ID] == proc
@@ -102,6 +103,7 @@ package actor
 //@ func (*Context).GetPID(id)
 //@   props C10
 //@   requires c != nil && c.engine != nil && c.engine.Registry != nil
+//@   modifies
 //@   ghost at call getByID#1 before: assert[C10.ctx-getpid.key] arg1 == id && arg0 == c.engine.Registry
 //@   ghost at call getByID#1: got = result
 //@   ensures[C10.ctx-getpid.hit] !isnil(got) ==> result == pidof(got)
@@ -112,8 +114,9 @@ package actor
 //@ func (*Engine).SpawnProc(p)
 //@   props C10
 //@   requires e != nil && e.Registry != nil && e.Registry.engine != nil && !isnil(p)
+//@   modifies heap except private, log, loglen
 //@   ghost at call add#1 before: assert[C10.spawnproc.add] arg0 == e.Registry && arg1 == p
-//@   ensures[C10.spawnproc.pid] result == pidof(p)
+//@   ensures[C10.spawnproc.pid] result == pidof(p) && result != nil
 //@   ensures[C10.spawnproc.effects] (loglen == entry(loglen) + 2 && log[entry(loglen)] == RegAdd(e.Registry, pidof(p).ID, p) && log[entry(loglen) + 1] == ProcStart(p)) || (loglen == entry(loglen) + 1 && log[entry(loglen)] == Broadcast(e.Registry.engine, ActorDuplicateIdEvent{PID: pidof(p)}))
 
 // ---------------------------------------------------------------------------
@@ -178,7 +181,7 @@ package actor
 //@ ghost var phase Int
 
 //@ pred procInv(p) := p != nil && p.Opts.Producer != nil && p.context != nil && p.context.engine != nil && p.context.engine.Registry != nil && p.context.engine.Registry.engine != nil &&
-//@      !isnil(p.inbox) && p.context.children != nil && p.pid != nil && p.context.pid == p.pid &&
+//@      !isnil(p.inbox) && p.context.children != nil && (p.context.parentCtx != nil ==> p.context.parentCtx.children != nil) && p.pid != nil && p.context.pid == p.pid &&
 //@      forall(k, 0 <= k && k < len(p.Opts.Middleware) ==> p.Opts.Middleware[k] != nil)
 //@ pred throughChain(fnv, c) := c == curproc.context && fnv == chainOf(boundmethod(c.receiver, "Receive"), curproc.Opts.Middleware)
 //@ pred isLifecycle(m) := istype(m, Initialized) || istype(m, Started) || istype(m, Stopped)
@@ -617,6 +620,7 @@ package actor
 //@ func (*Inbox).process()
 //@   props C02 C03
 //@   requires inboxOK(in) && tok && !owes
+//@   modifies heap except H$actor.Inbox$rb H$actor.Inbox$scheduler, stoppedByMe, tokens, wakers, log, loglen, tok, owes
 //@   ghost at call CompareAndSwapInt32#1 on success: tokens = tokens - 1; tok = false; wakers = wakers + 1; owes = true
 //@   ghost at call CompareAndSwapInt32#1 on failure: tokens = tokens - 1; tok = false
 //@   ghost at call Len#1: wakers = ite(result == 0, wakers - 1, wakers); owes = result != 0
@@ -812,3 +816,57 @@ package actor
 //@   ghost at entry: spawned = 0
 //@   ghost at go fn: spawned = spawned + 1
 //@   ghost at return#1: assert[C02.scheduler.starts-fn-exactly-once] spawned == 1
+
+// ---------------------------------------------------------------------------
+// Supervision tree (C08): linking a child to its parent; cleanup (above)
+// unlinks from the parent first and poisons and awaits every child of the
+// Children() snapshot before the own inbox is stopped.
+
+//@ functype OptFunc(opts)
+//@   modifies heap except private
+
+//@ func DefaultOpts(p)
+//@   trusted
+//@   pure
+
+//@ func newFuncReceiver(f)
+//@   trusted
+//@   pure
+//@   ensures result != nil
+
+//@ func (*process).PID()
+//@   props C08
+//@   requires p != nil
+//@   pure
+//@   ensures result == p.pid
+
+//@ func newProcess(e, opts)
+//@   trusted
+//@   modifies
+//@   ensures result != nil && fresh(result) && result.context != nil && fresh(result.context) && result.context.parentCtx == nil && result.context.children != nil &&
+//@        result.pid != nil && result.context.pid == result.pid && result.context.engine == e && result.pid.Address == e.address && result.pid.ID == opts.Kind + pidSeparator + opts.ID
+
+//@ func (*Context).SpawnChild(p, name, opts)
+//@   props C08
+//@   modifies heap except private, mapof(c.children.data), log, loglen
+//@   requires c != nil && c.pid != nil && engInv(c.engine) && c.children != nil && forall(k, 0 <= k && k < len(opts) ==> opts[k] != nil)
+//@   ghost at call SpawnProc#1 before: assert[C08.spawnchild.child-knows-its-parent] arg0 == c.engine && arg1 == Processer(proc) && proc.context.parentCtx == c
+//@   ghost at call SpawnProc#1: spawned = result
+//@   ghost at call Set#1 before: assert[C08.spawnchild.registered-with-parent] arg0 == c.children && arg1 == spawned.ID && arg2 == spawned
+//@   ghost at return#1: assert[C08.spawnchild.returns-child-pid] result == proc.pid
+//@   loop 1
+//@     invariant rangeindex >= -1
+
+//@ func (*Context).Parent()
+//@   props C08
+//@   requires c != nil
+//@   modifies
+//@   ensures[C08.parent] (c.parentCtx != nil ==> result == c.parentCtx.pid) && (c.parentCtx == nil ==> result == nil)
+
+//@ func (*Context).Child(id)
+//@   props C08
+//@   requires c != nil && c.children != nil
+//@   modifies
+//@   ghost at call Get#1 before: assert[C08.child.looks-up-own-children] arg0 == c.children && arg1 == id
+//@   ghost at call Get#1: found = result0; ok = result1
+//@   ghost at return#1: assert[C08.child.returns-the-entry] result == found
